@@ -1010,13 +1010,13 @@ def build_struct(target_host: str, banner: Optional['Banner'], kex: Optional['SS
             alg_desc = alg_db[alg_type][algorithm]
             alg_desc_len = len(alg_desc)
 
-            # If a list for the failure notes exists, add it to the return value.  Similarly, add the related lists for the warnings and informational notes.
+            # If a list for the failure notes exists, add it to the return value.  Similarly, add the related lists for the warnings and informational notes.  (Copies are returned so that the since-text appended below never ends up in the database itself.)
             if (alg_desc_len >= 2) and (len(alg_desc[1]) > 0):
-                alg_info["fail"] = alg_desc[1]
+                alg_info["fail"] = list(alg_desc[1])
             if (alg_desc_len >= 3) and (len(alg_desc[2]) > 0):
-                alg_info["warn"] = alg_desc[2]
+                alg_info["warn"] = list(alg_desc[2])
             if (alg_desc_len >= 4) and (len(alg_desc[3]) > 0):
-                alg_info["info"] = alg_desc[3]
+                alg_info["info"] = list(alg_desc[3])
 
             # Add information about when this algorithm was implemented in OpenSSH/Dropbear.
             since_text = Algorithm.get_since_text(alg_desc[0])
